@@ -400,6 +400,13 @@ Fixpoint compact_ok (grps : list (list Z)) (l : list file) : bool :=
   | g :: r => adjacent g l && compact_ok r (compact_group g l)
   end.
 
+(* strictly ascending integers (the sequence numbers of the ordered files an out-of-order merge wrote, in list order) *)
+Fixpoint asc_zs (l : list Z) : bool :=
+  match l with
+  | x :: ((y :: _) as r) => (x <? y) && asc_zs r
+  | _ => true
+  end.
+
 Definition op_ok (L : layout) (o : op) : bool :=
   match o with
   | Write _ => true
@@ -408,7 +415,7 @@ Definition op_ok (L : layout) (o : op) : bool :=
   | EndFlush _ so su => fresh_seq so (ord L) && fresh_seq su (ooo L)
   | Compact grps => compact_ok grps (ord L)
   | MergeSelf g n => adjacent g (ooo L) && between_neighbours g n (ooo L)
-  | MergeOOO g b => is_prefix g (ooo L) && match b with [] => false | _ => true end
+  | MergeOOO g b => is_prefix g (ooo L) && match b with [] => false | _ => true end && asc_zs (map fst b)
   end.
 
 (* a written row carries at least one field and its field ids ascend (the harness / the line protocol sort them) *)
